@@ -6,6 +6,7 @@ import (
 	"go.opentelemetry.io/collector/pdata/pcommon"
 
 	"github.com/tdakkota/docker-logql/internal/logql"
+	"github.com/tdakkota/docker-logql/internal/logql/logqlengine/logqlmetric"
 )
 
 var verifNamesC10 = []string{"a", "ab", "b", "c"}
@@ -125,3 +126,46 @@ func verifC10KeyPermutation(n int) {
 
 func VerifHarness_C10_KeyPermutation_2() { verifC10KeyPermutation(2) }
 func VerifHarness_C10_KeyPermutation_3() { verifC10KeyPermutation(3) }
+
+// C10-O1b / C18: the same with a grouping given at construction and widened
+// afterwards, as nested aggregations do: the key and the visible labels of
+// the sample depend on the label set and the grouping only.
+func verifC10KeyOrderGrouped() {
+	names := []string{"a", "b", "c"}
+	vals := make([]string, len(names))
+	for i := range vals {
+		vals[i] = vsymString("val", vsymChoice("vallen", 2))
+	}
+	set := verifLabelSet(names, vals)
+	var by, without map[string]struct{}
+	switch vsymChoice("ctor", 4) {
+	case 1:
+		by = buildSet[logql.Label](nil, "a")
+	case 2:
+		by = buildSet[logql.Label](nil, "a", "b")
+	case 3:
+		without = buildSet[logql.Label](nil, "c")
+	}
+	widen := vsymChoice("widen", 4)
+	build := func() (uint64, map[string]string) {
+		var al logqlmetric.AggregatedLabels = newAggregatedLabels(set, by, without)
+		switch widen {
+		case 1:
+			al = al.By("b", "c")
+		case 2:
+			al = al.Without("b")
+		case 3:
+			al = al.By("c").By("b")
+		}
+		return al.Key(), map[string]string(al.AsLokiAPI())
+	}
+	vsymMapOrderAll()
+	k1, l1 := build()
+	k2, l2 := build()
+	vsymMapOrderDefault()
+	vsymAssert(k1 == k2, "[maporder] the same label set and grouping always get the same grouping key")
+	vsymAssert(verifMapEq(l1, l2), "[maporder] the same label set and grouping always show the same labels")
+	vsymReach("C10_key_order_grouped")
+}
+
+func VerifHarness_C10_KeyOrderGrouped_MapOrder() { verifC10KeyOrderGrouped() }
